@@ -34,7 +34,7 @@ pub fn sets_map(s: &Sets) -> HashMap<String, Value> {
     if let Some(a) = s.a {
         m.insert("a".to_string(), Value::Int(a));
     }
-    if let Some(b) = s.b {
+    if let Some(b) = s.b.value() {
         m.insert("b".to_string(), b.map_or(Value::Null, Value::Int));
     }
     if let Some(x) = s.s {
@@ -48,8 +48,8 @@ pub fn sets_map(s: &Sets) -> HashMap<String, Value> {
 
 /// Reads an empty assignment mask the way `sets_map` sends it.
 pub fn norm_sets(s: &Sets) -> Sets {
-    if s.a.is_none() && s.b.is_none() && s.s.is_none() {
-        Sets { a: Some(0), b: None, s: None }
+    if s.a.is_none() && s.b == SetB::Keep && s.s.is_none() {
+        Sets { a: Some(0), b: SetB::Keep, s: None }
     } else {
         s.clone()
     }
@@ -694,7 +694,7 @@ impl Run {
                 let v = Vals { a: 0, b: None, s: 0 };
                 let (name, r): (&str, Result<(), RelationalError>) = match kind % 6 {
                     0 => ("tx_insert", self.eng.tx_insert(eid, table, vals_map(&v)).map(|_| ())),
-                    1 => ("tx_update", self.eng.tx_update(eid, table, Condition::True, sets_map(&Sets { a: Some(1), b: None, s: None })).map(|_| ())),
+                    1 => ("tx_update", self.eng.tx_update(eid, table, Condition::True, sets_map(&Sets { a: Some(1), b: SetB::Keep, s: None })).map(|_| ())),
                     2 => ("tx_delete", self.eng.tx_delete(eid, table, Condition::True).map(|_| ())),
                     3 => ("tx_select", self.eng.tx_select(eid, table, Condition::True).map(|_| ())),
                     4 => ("commit", self.eng.commit(eid)),
